@@ -171,6 +171,27 @@ fn check_env(ctx: &mut Ctx, c: &EnvCase) -> Res {
             let mut t = blob.clone();
             t[pos] = t[pos] ^ (0x5b_u8.wrapping_add(pos as u8) | 1);
             tamper(ctx, t, "byte-random", pos)?;
+            // header and length fields: extreme byte values (lengths that overflow narrow arithmetic)
+            if pos < 6 {
+                for v in [0x00u8, 0x01, 0x07, 0x7f, 0x80, 0xf0, 0xfe, 0xff] {
+                    if blob[pos] != v {
+                        let mut t = blob.clone();
+                        t[pos] = v;
+                        tamper(ctx, t, "byte-set", pos)?;
+                    }
+                }
+                // both bytes of a 16-bit field at once
+                if pos % 2 == 0 {
+                    for (a, b) in [(0xffu8, 0xffu8), (0x00, 0x00), (0xf0, 0xff), (0xff, 0x7f), (0x00, 0x80)] {
+                        let mut t = blob.clone();
+                        t[pos] = a;
+                        t[pos + 1] = b;
+                        if t != blob {
+                            tamper(ctx, t, "field-set", pos)?;
+                        }
+                    }
+                }
+            }
         }
         pos += 1;
     }
@@ -278,7 +299,7 @@ fn seq_case() -> impl Strategy<Value = SeqCase> {
 }
 
 fn env_case(full: bool) -> impl Strategy<Value = EnvCase> {
-    let wl = prop_oneof![2 => 16u16..32, 3 => 32u16..=255, 2 => 256u16..=1024, 1 => prop::sample::select(vec![16u16, 31, 32, 33, 255, 256, 257, 1023, 1024])];
+    let wl = prop_oneof![2 => 16u16..32, 3 => 32u16..=255, 2 => 256u16..=1024, 1 => prop::sample::select(vec![16u16, 31, 32, 33, 240, 254, 255, 256, 257, 496, 511, 752, 1008, 1023, 1024])];
     // the seed is opaque bytes: binary, or text such as the configuration's 64 hex characters, base64, digits
     let plain = prop_oneof![
         6 => bytes(32usize..=64),
@@ -299,6 +320,13 @@ struct GridCase {
 }
 
 pub fn run(ctx: &mut Ctx) -> Vec<Violation> {
+    // every second worker process runs with logging switched on at Trace (log arguments are only evaluated then);
+    // records are formatted and dropped
+    if ctx.shard % 2 == 1 {
+        crate::srvlab::install_logger(log::LevelFilter::Trace);
+        *crate::srvlab::LOGGER.keep.lock().unwrap() = false;
+        ctx.class("logging-on-at-trace");
+    }
     let mut out = vec![];
     let t = ctx.tier;
     out.extend(run_prop(ctx, "full-enum", t.pick(640, 4_000), 100, env_case(true), |ctx, c| {
@@ -326,6 +354,8 @@ pub fn run(ctx: &mut Ctx) -> Vec<Violation> {
 }
 
 pub fn replay(ctx: &mut Ctx, sub: &str, case: &Value) -> Res {
+    crate::srvlab::install_logger(log::LevelFilter::Trace);
+    *crate::srvlab::LOGGER.keep.lock().unwrap() = false;
     match sub {
         "full-enum" | "sampled" => replay_case::<EnvCase, _>(ctx, case, |ctx, c| check_env(ctx, c)),
         "sequences" => replay_case::<SeqCase, _>(ctx, case, |ctx, c| check_seq(ctx, c)),
